@@ -403,6 +403,34 @@ static Result execute(const Toks &t) {
             for (auto jj = Am.ptr[i]; jj < Am.ptr[i+1]; ++jj) { long k = Am.col[jj]; Q s(0); for (long j = 0; j < n; ++j) s += res[j] * A[k][j]; if (s != 0) exact = false; if (qabs(s) > eps) tol = false; } }
         if (!samepat) r.fail("spai1: pattern of M differs from the pattern of A"); if (!tol) r.fail("spai1: normal equations violated beyond 2^-16");
         r.out = (Line() << samepat << exact << tol).get(); r.tag("spai1"); if (exact) r.tag("spai1_exact"); struct_tags(Am); r.nontrivial = n > 1 && Am.col.size() > (size_t)n;
+    } else if (op == "relax_spai1_m" || op == "relax_spai1_pre" || op == "relax_spai1_post" || op == "relax_spai1_apply") {
+        // F-grade: the REAL spai1 against the faithful model Model/RelaxSpai1.lean (exact equality of M and of the sweeps; the
+        // Householder QR runs with the same rational pseudo square root on both sides)
+        typedef amgcl::relaxation::spai1<Backend> R; Mat Am; QV f, x, tmp;
+        if (op == "relax_spai1_m") { Am = c.mat(); c.expect_end(); if (!square_wf(Am)) throw bad_input("shape"); }
+        else if (op == "relax_spai1_apply") apply_args(Am, f); else sweep_args(Am, f, x, tmp);
+        for (long i = 0; i < Am.n; ++i) if (Am.ptr[i+1] == Am.ptr[i]) throw bad_input("empty row: spai1 forms &B[0] on an empty vector");
+        auto A = Am.crs(); R relax(*A, R::params(), bprm); long n = Am.n;
+        Mat M; M.n = Am.n; M.m = Am.m; { const Crs &C = *relax.M; M.ptr.assign(C.ptr, C.ptr + C.nrows + 1); M.col.assign(C.col, C.col + C.nnz); M.val.assign(C.val, C.val + C.nnz); }
+        if (!(M.ptr == Am.ptr && M.col == Am.col)) r.fail("spai1: pattern of M differs from the pattern of A");
+        Dense D = dense(Am), Md = dense(M); bool nd = nodup(Am);
+        // least-squares oracle (independent of the library's QR): normal equations of min || e_i - m A ||_2 over the pattern of row i,
+        // exact where the rational square root happened to be exact, else up to 2^-16 on strictly diagonally dominant matrices
+        // (full column rank, well conditioned local problems); wide / rank deficient local problems are only compared with the model
+        bool sdd = true; for (long i = 0; i < n; ++i) { Q s(0); for (long j = 0; j < n; ++j) if (j != i) s += qabs(D[i][j]); if (!(s < qabs(D[i][i]))) sdd = false; }
+        if (nd) {
+            bool exact = true, tol = true; Q eps = Q::frac(1, 1L << 16);
+            for (long i = 0; i < n; ++i) { QV res(n); for (long j = 0; j < n; ++j) { Q s(i == j ? 1 : 0); for (long l = 0; l < n; ++l) s -= Md[i][l] * D[l][j]; res[j] = s; }
+                for (auto jj = Am.ptr[i]; jj < Am.ptr[i+1]; ++jj) { long k = Am.col[jj]; Q s(0); for (long j = 0; j < n; ++j) s += res[j] * D[k][j]; if (s != 0) exact = false; if (qabs(s) > eps) tol = false; } }
+            if (exact) r.tag("spai1_exact");
+            if (sdd) { r.tag("spai1_sdd"); if (!tol) r.fail("spai1: normal equations violated beyond 2^-16 on a strictly diagonally dominant matrix"); }
+        } else r.tag("spai1_dups");
+        { bool wide = false; for (long i = 0; i < n && !wide; ++i) { std::set<long> J; for (auto j = Am.ptr[i]; j < Am.ptr[i+1]; ++j) { long cc = Am.col[j]; for (auto jj = Am.ptr[cc]; jj < Am.ptr[cc+1]; ++jj) J.insert(Am.col[jj]); } if ((long)J.size() < Am.ptr[i+1] - Am.ptr[i]) wide = true; } if (wide) r.tag("spai1_wide"); }
+        if (op == "relax_spai1_m") { Line lo; lo << M; r.out = lo.get(); r.tag("spai1_m"); }
+        else if (op == "relax_spai1_apply") { QV y = run_apply(relax, *A, f); if (!veq(y, dmv(Md, f))) r.fail("spai1 apply != M f"); r.out = (Line() << y).get(); r.tag("spai1_apply"); }
+        else { QV x1, t1; sweep_case(r, relax, Am, *A, f, x, tmp, op == "relax_spai1_pre", x1, t1); QV res = vsub(f, dmv(D, x)), mr = dmv(Md, res), ref(n); for (long i = 0; i < n; ++i) ref[i] = x[i] + mr[i];
+            if (!veq(x1, ref)) r.fail("spai1 sweep != x + M (f - A x)"); if (!veq(t1, res)) r.fail("spai1 tmp != f - A x"); r.tag("spai1_sweep"); }
+        struct_tags(Am); r.nontrivial = n > 1 && Am.col.size() > (size_t)n;
     } else {
         r.out = "bad-op";
     }
@@ -460,7 +488,7 @@ static void generate(Rng &rng, const Opts &o, std::vector<std::string> &lines) {
     const std::vector<Q> omegas = { Q::frac(18, 25), Q(1), Q::frac(2, 3), Q::frac(1, 2), Q(0), Q::frac(-1, 3) };
     const std::vector<float> his = { 1.0f, 1.1f, 1.5f }, los = { 1.0f / 30, 0.25f, 0.5f, 1.0f };
     for (long k = 0; k < N; ++k) {
-        int which = (int)rng.range(0, 22);
+        int which = (int)rng.range(0, 25);
         long n = rng.coin(1, 12) ? 1 : rng.range(2, nmax);
         int fam = (int)rng.range(0, 7);
         Mat A = gen_matrix(rng, n, fam); n = A.n;
@@ -512,6 +540,15 @@ static void generate(Rng &rng, const Opts &o, std::vector<std::string> &lines) {
             if (!ok) { F.L = from_rows(n, n, std::vector<std::vector<std::pair<long,Q>>>(n)); F.U = F.L; F.D.assign(n, Q(1)); }    // reported by the oracle when executed
             l << "relax_lu_check" << kind << kk << A << F.L << F.U << F.D;
         }
+        else if (which >= 23) {       // F-grade: SPAI-1 against the faithful model (Model/RelaxSpai1.lean): all families, unsorted rows, duplicates,
+                                      // a missing diagonal (local problems with fewer rows than columns: the wide branch of QR::solve)
+            if (n > 6) n = rng.range(2, 6); A = gen_matrix(rng, n, (int)rng.range(0, 7)); n = A.n;
+            if (rng.coin(1, 6)) { auto rows = to_rows(A); long i0 = rng.range(0, n - 1); if (rows[i0].size() > 1) { std::vector<std::pair<long,Q>> nr; for (auto &cv : rows[i0]) if (cv.first != i0) nr.push_back(cv); rows[i0] = nr; A = from_rows(n, n, rows); } }
+            x = gen_vec(rng, n); f = rng.coin(1, 4) ? mat_vec(A, x) : gen_vec(rng, n); tmp = gen_vec(rng, n);
+            maybe_unsort();
+            int sub = (int)rng.range(0, 5);
+            if (sub <= 1) l << "relax_spai1_m" << A; else if (sub <= 3) l << (sub == 2 ? "relax_spai1_pre" : "relax_spai1_post") << A << f << x << tmp; else l << "relax_spai1_apply" << A << f;
+        }
         else if (which >= 20) {       // ILU(k) / ILUP as written (modelled in Lean: Model/RelaxIluk.lean, ilup = ilu0 on the padded pattern)
             int fam2 = (int)rng.range(0, 5); A = gen_matrix(rng, n, fam2); n = A.n; x = gen_vec(rng, n); f = rng.coin(1, 4) ? mat_vec(A, x) : gen_vec(rng, n); tmp = gen_vec(rng, n);
             long kk = rng.coin(1, 8) ? n : rng.range(0, 3);
@@ -544,6 +581,8 @@ static void generate(Rng &rng, const Opts &o, std::vector<std::string> &lines) {
     lines.push_back("relax_ilu0_apply 2 2 2 1 1 0 1 1 1 1 2 1 1");                  // unsorted row
     lines.push_back("relax_ilu0_apply 2 2 1 0 1 1 0 1 2 1 1");                      // last row has no entry at or right of the diagonal
     lines.push_back("relax_spai0_pre 2 3 1 0 1 1 1 1 2 1 1 2 1 1 2 0 0");           // not square
+    lines.push_back("relax_spai1_m 2 2 0 1 1 2");                                   // empty row
+    lines.push_back("relax_spai1_apply 2 2 1 0 1 1 1 1 1 1");                       // vector size does not fit
 }
 
 VH_MAIN(generate, execute)
